@@ -8,7 +8,8 @@ sentinel (except the defensive capacity == 0 case) and queues the watcher for un
 StateMachine::apply_chunk, the CompareAndSwap arm builds an event only under ApplyResult.succeeded, every
 event's revision is the entry's log index; (d) the atomic that feeds Progress revisions
 (WatchDispatcher.last_applied) has a writer; (e) register_prefix reaches do_register only for prefixes that
-start and end with '/'.  Necessary conditions, not the whole behaviour (prefix matching semantics and
+start and end with '/'; (f) the fan-out loops (watchers of one key in dispatch_to_map, prefix segments in dispatch)
+are left only when their iterator is exhausted - no break / return / `?` inside them.  Necessary conditions, not the whole behaviour (prefix matching semantics and
 per-watcher ordering over all schedules are not decided)."""
 from .common import *
 from .helpers_r3 import *
@@ -124,6 +125,31 @@ def run(ctx):
                       "a data event is sent only while more than the reserved slot is free",
                       "a data event can be sent when capacity() <= 1: it takes the slot reserved for the CANCELED sentinel, so a later overflow cannot be signalled "
                       "(try_send(cancel) fails with Full and the watcher is unregistered silently)", loc(mb, bi), wit and bpath(mb, wit))
+        # ------------------------------------------------------------ C24-f the fan-out visits every watcher
+        # the loop that sends the data event iterates the watchers of one key; its only exit is the exhaustion of that
+        # iterator: a `break` / `return` / `?` inside it (e.g. in the overflow branch of one slow watcher) leaves the
+        # watchers registered after it without this event - a silent one-revision gap in a healthy stream
+        for n, (bi, t) in enumerate(data):
+            h, early = loop_early_exits(F, mb, bi)
+            ctx.check("C24-f", "%s#data-send[%d]#fan-out-loop-single-exit" % (fkey(dm), n), h is not None and not early,
+                      "the per-watcher loop around the data send is left only when the watcher iterator is exhausted",
+                      ("the data send is not inside an iterator loop over the watchers" if h is None else
+                       "the per-watcher fan-out loop can be left early at %s: watchers registered after that one never get the event being dispatched (no CANCELED either): "
+                       "their stream has a silent gap" % [loc(mb, x) for (x, _y) in early[:3]]), loc(mb, bi))
+        looped, nth = 0, {}
+        for (croot, cbid, cbi, ct) in sorted(F.callers_of(lambda k: k == dm.id), key=lambda x: (x[0], x[1], x[2])):
+            cb = F.bodies[cbid]
+            if re.search(r"(_test|/tests?/)", cb.file or ""):
+                continue
+            h, early = loop_early_exits(F, cb, cbi)
+            if h is None:
+                continue
+            looped += 1
+            nth[croot] = nth.get(croot, -1) + 1
+            ctx.check("C24-f", "%s#dispatch-loop[%d]-single-exit" % (fkey(croot), nth[croot]), not early, "every key / prefix segment of the loop is dispatched",
+                      "the loop over the key's prefix segments can be left early at %s: prefix watchers of the remaining segments miss the event" % [loc(cb, x) for (x, _y) in early[:3]],
+                      loc(cb, cbi))
+        ctx.floor("C24-f", looped, 1, "dispatch_to_map call inside the prefix-segment loop of its caller")
         over = [c for c in conds.values() if cap_rel(c) == "<="]
         ctx.floor("C24-b", len(over), 1, "overflow branch (capacity() <= 1) in dispatch_to_map")
         pushes = [bi for (bi, t) in calls_matching(mb, r"Vec::push$")]
@@ -182,6 +208,9 @@ def run(ctx):
                 n_cas += 1
 
                 def succeeded(c):
+                    # direct form: `Some(r) if r.succeeded` / `if results[i].succeeded`
+                    if c.truth is True and c.kind == "bool" and cond_slice(F, c).has_field("ApplyResult", "succeeded"):
+                        return True
                     if c.truth is not True or c.kind != "call":
                         return False
                     xs = XSlice(F, be)
